@@ -111,6 +111,13 @@ class Serializable(object):  # pylint: disable=too-few-public-methods
         return result
 
     @staticmethod
+    def _get_ordered_items(obj):
+        if isinstance(obj, (frozenset, set)):
+            return sorted(obj, key=lambda item: (item.name if isinstance(item, enum.Enum) else str(item)))
+
+        return obj
+
+    @staticmethod
     def _json_result(obj):
         if isinstance(obj, enum.Enum):
             if isinstance(obj.value, CryptoDataParamsBase):
@@ -143,7 +150,7 @@ class Serializable(object):  # pylint: disable=too-few-public-methods
         elif hasattr(obj, '__dict__'):
             result = Serializable._json_traverse(obj.__dict__, result_func)
         elif isinstance(obj, (list, tuple, frozenset, set)):
-            result = [Serializable._json_traverse(item, result_func) for item in obj]
+            result = [Serializable._json_traverse(item, result_func) for item in Serializable._get_ordered_items(obj)]
         else:
             result = result_func(obj)
 
@@ -209,7 +216,7 @@ class Serializable(object):  # pylint: disable=too-few-public-methods
         indent = Serializable._markdown_indent_from_level(level)
 
         result = ''
-        for index, item in enumerate(obj):
+        for index, item in enumerate(Serializable._get_ordered_items(obj)):
             multiline, markdnow_result = cls._markdown_result(item, level + 1)
             result += '{indent}{index}.{separator}{value}{newline}'.format(
                 indent=indent,
